@@ -251,3 +251,20 @@ Lemma fetch_examples :
   fetch [Some 1; Some 1; Some 1] 3 2 = Got 2 3 /\ fetch [Some 1; Some 1; Some 1] 1 2 = Got 2 1 /\
   fetch [None] 4 7 = Got 7 4 /\ fetch [Some 1; Some 1; None] 3 3 = Got 3 4.
 Proof. vm_compute. repeat split. Qed.
+
+(* ---------------------------------------------------------------- what is overheard *)
+(* acknowledgements of writes (and fragments arriving while the zone's own transfer holds the lock) change nothing ... *)
+Lemma hear_non_fragments : forall es st, (forall e, In e es -> is_frag e = false) -> hear_all st es = st.
+Proof.
+  induction es as [|e es IH]; intros st H; [reflexivity|]. unfold hear_all in *. cbn [fold_left].
+  assert (E : hear st e = st).
+  { specialize (H e (or_introl eq_refl)). destruct st as [ps last]. destruct e as [[|] [t k v|t k]]; cbn in *; try reflexivity. discriminate. }
+  rewrite E. apply IH. intros e' He'. apply H. right. exact He'.
+Qed.
+(* ... and hearing anything at all is feeding the reassembly exactly the fragments among it, in order: nothing else ever enters the set *)
+Lemma hear_is_vfeed : forall es ps last, hear_all (ps, last) es = vfeed ps last (flat_map frag_of es).
+Proof.
+  induction es as [|e es IH]; intros ps last; [reflexivity|]. unfold hear_all in *. cbn [fold_left flat_map].
+  destruct e as [[|] [t k v|t k]]; cbn [hear frag_of app]; try apply IH.
+  cbn [vfeed]. destruct (vupdate ps t k v) as [ps' r]. apply IH.
+Qed.
